@@ -315,7 +315,7 @@ LEVEL_TEXT = ("Theorems for every lint-clean closed circuit, every order choice 
               "names no digit-led / primitive names): (C03_roundtrip_identical_bb) without constants the primitive-style text reads back to the "
               "identical circuit and registry; (C03_roundtrip_equiv_bb, pins not marked as outputs) in both styles with any constants the read "
               "succeeds, gives the same name, inputs, outputs and registry, every input pin on the same net (or none), every output pin driving "
-              "the same net, and an equivalent circuit at every output and every blackbox input pin. roundtrip_identical_full / "
+              "the same net, and an equivalent circuit at every output and every blackbox input pin (C03_roundtrip_equiv_bb_nodes: at every node). roundtrip_identical_full / "
               "roundtrip_equiv_full (wf_rt alone) are kept as statements and refuted as stated (C03_full_statements_need_wf_bb: a blackbox "
               "type called and satisfies wf_rt). Every generated circuit is additionally decided by the Coq specification on the recorded read-back circuits "
               "(identity of the graph where claimed; interface, registry, pin nets and exhaustive function comparison otherwise), directly and "
